@@ -369,7 +369,13 @@ def replay_failure(scratch, src, crate, modinfo, res):
         f.write("\n// ---- concrete playback (inserted by the driver) ----\n" + code + "\n")
     env = dict(os.environ)
     env["CARGO_NET_OFFLINE"] = "true"
+    # one playback target directory per check run (dependencies are built once per profile),
+    # seeded from the cache built by bin/setup when present
     tdir = os.path.join(scratch, "t", "playback")
+    if not os.path.isdir(tdir):
+        cache = os.path.join(CACHE, "kani-playback-target")
+        if os.path.isdir(cache):
+            sh(["cp", "-a", cache, tdir])
     env["CARGO_TARGET_DIR"] = tdir  # `cargo kani playback` rejects --target-dir
     detail = []
     reproduced = {}
@@ -397,7 +403,6 @@ def replay_failure(scratch, src, crate, modinfo, res):
             tail = "\n".join(lines[-18:])
             detail.append("[%s profile] %s -> %s\n%s" % (prof, tn, "FAILS natively" if failed and ran
                                                  else "does not fail", tail))
-    shutil.rmtree(tdir, ignore_errors=True)
     ok = any(reproduced.values())
     return ok, "\n".join(detail), code
 
@@ -472,6 +477,11 @@ def main(argv):
                 res["checks_total"],
                 sum(1 for c in res["covers"] if c["status"] == "SATISFIED"), len(res["covers"]),
                 why))
+            if status == "FAILURE" and len(violations) >= 2:
+                res["status"] = "FAILURE"
+                res["why"] += " (not replayed: two violations of this property are already confirmed natively)"
+                log("[%s] %s fails too; not replayed (two violations already confirmed)" % (prop, h["name"]))
+                continue
             if status == "FAILURE":
                 m = mods[h["mod"]]
                 ok, detail, code = replay_failure(scratch, src, m.get("crate", P["crate"]), m, res)
@@ -500,7 +510,8 @@ def main(argv):
         for k in known_hits:
             log("KNOWN-FINDING: property=%s %s" % (prop, k.get("what", k.get("role"))))
         for name, rp, roles in violations:
-            log("VIOLATION property=%s replay=%s harness=%s failing=%s" % (prop, rp, name, roles))
+            log("VIOLATION property=%s replay=%s" % (prop, rp))
+            log("  violation detail: harness=%s failing=%s" % (name, roles))
         if violations:
             rc = 1
         elif undecided_core:
